@@ -253,13 +253,49 @@ def r18_2_3(run):
     run.ob('R18.3', u, u.node, 'the chosen endpoint is returned', ok, slot='returns', message='returns %s' % [src(r.ast.value) for r in rets])
 
 
+_LIST_MUT = ('append', 'pop', 'remove', 'clear', 'extend', 'insert', 'sort', 'reverse', '__setitem__', '__delitem__')
+
+
 def r18_4(run):
     ce = run.idx.cls('TorClientEndpoint', MOD)
     v = ce.attrs.get('socks_ports_to_try')
     run.ob('R18.4', ce.file, v or ce.node, 'fallback ports are 9050 then 9150', const(v) == [9050, 9150] if v is not None else False, slot='ports', message='socks_ports_to_try = %s' % (src(v) if v is not None else None))
     cn = run.idx.find_method(ce, 'connect')
     g = cfg_of(cn)
-    loops = [n for n in g.live if n.kind == 'iter' and dotted(n.ast.iter) == 'self.socks_ports_to_try']
+    # names under which the list is known: the class attribute and instance attributes bound to it (or to a copy of it)
+    LISTN = {'self.socks_ports_to_try', ce.simple + '.socks_ports_to_try'}
+    changed = True
+    while changed:
+        changed = False
+        for m in ce.methods.values():
+            for n in walk_unit(m):
+                if not isinstance(n, ast.Assign):
+                    continue
+                v = n.value
+                if isinstance(v, ast.Call) and dotted(v.func) in ('list', 'tuple') and len(v.args) == 1:
+                    v = v.args[0]
+                elif isinstance(v, ast.Subscript) and isinstance(v.slice, ast.Slice) and v.slice.lower is None and v.slice.upper is None and v.slice.step is None:
+                    v = v.value
+                if dotted(v) in LISTN:
+                    for t in n.targets:
+                        if (dotted(t) or '').startswith('self.') and dotted(t) not in LISTN:
+                            LISTN.add(dotted(t))
+                            changed = True
+    # nobody edits it: the list (shared by every endpoint of the process when it is the class attribute) stays 9050, 9150
+    for m in ce.methods.values():
+        for n in walk_unit(m):
+            bad = None
+            if isinstance(n, ast.Call) and callee_attr(n) in _LIST_MUT and dotted(receiver(n)) in LISTN:
+                bad = src(n)
+            elif isinstance(n, ast.AugAssign) and dotted(n.target) in LISTN:
+                bad = src(n)
+            elif isinstance(n, (ast.Assign, ast.Delete)) and any(isinstance(t, ast.Subscript) and dotted(t.value) in LISTN for t in (n.targets if isinstance(n, (ast.Assign, ast.Delete)) else [])):
+                bad = src(n)
+            if bad:
+                run.ob('R18.4', m, n, 'the list of fallback ports is never edited', False, slot='ports-edited@%s' % m.name,
+                       message='%s edits the fallback port list (%s): endpoints given no SOCKS endpoint try other ports than 9050, 9150 - for every endpoint of the process when the '
+                               'list is the class attribute' % (m.name, bad[:60]))
+    loops = [n for n in g.live if n.kind == 'iter' and dotted(n.ast.iter) in LISTN]
     run.floor('R18.4', 'fallback loops in connect', len(loops), 1)
     LE = set()
     for lp in loops:
@@ -286,7 +322,7 @@ def r18_4(run):
         rs = [n for n in r if n.kind == 'stmt' and isinstance(n.ast, ast.Raise) and dotted(n.ast.exc) in LE]
         run.ob('R18.4', cn, node, 'if all ports fail the last error is reported', bool(rs), slot='raise-last', message='no "raise last_error" after the loop')
         normal = [e for e in g.normal_exits() if e in g.reachable(after, avoid=lambda n: n in rs)]
-        run.ob('R18.4', cn, node, 'the loop order is the list order', dotted(node.iter) == 'self.socks_ports_to_try', slot='order', message='iterates %s' % src(node.iter))
+        run.ob('R18.4', cn, node, 'the loop order is the list order', dotted(node.iter) in LISTN, slot='order', message='iterates %s' % src(node.iter))
     # the loop is only used when no endpoint was given
     for lp in loops:
         gd = g.guarded_by(lp, lambda t: isinstance(t, ast.Compare) and dotted(t.left) == 'self._socks_endpoint' and is_none(t.comparators[0]))
@@ -495,6 +531,7 @@ RULES = [
 from ..selftest import M  # noqa: E402
 F, FC = 'txtorcon/endpoints.py', 'txtorcon/torconfig.py'
 MUTANTS = [
+    M('legacy-port-joins-shared-list', F, "            except KeyError:\n                pass\n", "            except KeyError:\n                if kw.get('socks_port') is not None:\n                    self.socks_ports_to_try.insert(0, int(kw['socks_port']))\n", ['R18.4']),
     M('agent-saves-always', 'txtorcon/web.py', "        torconfig.SocksPort.append(socks_config)\n        try:\n            yield torconfig.save()\n        except Exception as e:\n            raise RuntimeError(\n                \"Failed to reconfigure Tor with SOCKS port '{}': {}\".format(\n                    socks_config, str(e)\n                )\n            )\n", "        torconfig.SocksPort.append(socks_config)\n    try:\n        yield torconfig.save()\n    except Exception as e:\n        raise RuntimeError(str(e))\n", ['R18.5']),
     M('ports-read-before-bootstrap', FC, "        yield self.post_bootstrap\n\n        if socks_config is None:", "        if socks_config is None:", ['R18.6']),
     M('default-endpoint-guard-negated', 'txtorcon/controller.py', "        if self._socks_endpoint is None:\n            self._socks_endpoint = yield _create_socks_endpoint", "        if self._socks_endpoint is not None:\n            self._socks_endpoint = yield _create_socks_endpoint", ['R18.7']),
